@@ -3,6 +3,7 @@ import MxV.Model.Msimple
 import MxV.Model.Mfull
 import MxV.Model.Element
 import MxV.Model.Serialize
+import MxV.Model.Parser
 import MxV.Gen.Strs
 import MxV.Gen.Templates
 import MxV.Gen.Attrs
@@ -342,6 +343,36 @@ def step (st : St) (line : String) : St × String :=
           let inst := { mkInst e (chk == "1") pv with attrs := s, kwargs := pairs }
           ({ st with insts := st.insts.insert i inst }, "ok")
     | _, _, _ => (st, "bad-op")
+  | ["parsee", i, c, t, f, z] =>
+    -- _et_xml_to_music_xml, element part: cls(value_=strip(text)) with the str/float/int ladder
+    match i.toNat?, c.toNat? with
+    | some i, some c =>
+      match einfo c with
+      | none => (st, "bad-class")
+      | some e =>
+        let text := String.ofList (Values.strip (unhex t).toList)
+        let o : Parser.Oracle := ⟨if f == "x" then none else parseVal f, if z == "x" then none else parseVal z⟩
+        match Parser.elementValue (valueCheck e) text o with
+        | .ok v => ({ st with insts := st.insts.insert i (mkInst e true v) }, "ok")
+        | .error r => (st, r.str)
+    | _, _ => (st, "bad-op")
+  | ["pattr", i, k, v, f, z] =>
+    match i.toNat? with
+    | some i =>
+      match st.insts[i]? with
+      | some inst =>
+        match inst.info with
+        | some e =>
+          let key := unhex k
+          if e.kind == 1 && (e.akey.map tableBroken).getD true then (st, "unmodelled")
+          else
+            let o : Parser.Oracle := ⟨if f == "x" then none else parseVal f, if z == "x" then none else parseVal z⟩
+            match Parser.attrValue (fun pv => setAttrE e inst.attrs key pv) o (unhex v) with
+            | .ok s => ({ st with insts := st.insts.insert i { inst with attrs := s } }, "ok")
+            | .error x => (st, x.str)
+        | none => (st, "unmodelled")
+      | none => (st, "bad-inst")
+    | none => (st, "bad-op")
   | ["setval", i, v] =>
     match i.toNat?, parseVal v with
     | some i, some pv =>
@@ -575,10 +606,80 @@ def step (st : St) (line : String) : St × String :=
   | [] => (st, "")
   | _ => (st, "bad-op")
 
+def strIndex (s : String) : Option Nat := Gen.strs.toList.idxOf? s
+
+/-- children of an instance in insertion order, whatever bookkeeping it uses -/
+def unorderedOf (i : Inst) : List Nat := if usesMatcher i then i.full.unordered else Msimple.ids i.kids
+
+def firstPart (s : String) : String := (s.splitOn "|").headD s
+
+/-- `e.xml_x = value`: the decision is `Element.childShortcut`, the action is carried out with the
+    explicit operations (which is exactly what the property claims the shortcut to be) -/
+def stepDot (st : St) (i : Nat) (key : String) (newId : Nat) (arg : String) : St × String :=
+  match st.insts[i]? with
+  | none => (st, "bad-inst")
+  | some inst =>
+    let childName := Element.shortcutChildName key
+    let possible := inst.hasTree && (dedup inst.p.leaves).any fun n => strOf n == childName
+    let clsName := "C:" ++ Element.shortcutClassName key
+    let clsIdx := strIndex clsName
+    let ce := clsIdx.bind einfo
+    let isInstArg := arg.startsWith "inst:"
+    let j := (dropPrefix arg 5).toNat?.getD 0
+    let argCls : Option Nat := if isInstArg then (st.insts[j]?).bind (fun x => x.info.map (·.cls)) else none
+    let isInstance := isInstArg && argCls.isSome && argCls == clsIdx
+    let isNone := arg == "none"
+    let found := (unorderedOf inst).find? fun c => match st.insts[c]? with
+      | some ci => (ci.info.map (·.cls)) == clsIdx
+      | none => false
+    match Element.childShortcut possible ce.isSome found.isSome isInstance isNone, ce with
+    | .attributeError, _ => (st, "err:AttributeError")
+    | .replace, some e => let (s', r) := step st s!"repl {i} {found.getD 0} {j} {e.name}"; (s', firstPart r)
+    | .add, some e => let (s', r) := step st s!"add {i} {j} {e.name}"; (s', firstPart r)
+    | .remove, _ => let (s', r) := step st s!"rm {i} {found.getD 0}"; (s', firstPart r)
+    | .nothing, _ => (st, "ok")
+    | .setValue, _ => step st s!"setval {found.getD 0} {arg}"
+    | .addNew, some e =>
+      let (s1, r1) := step st s!"newe {newId} {e.cls} 1 {arg}"
+      if r1 != "ok" then (s1, r1) else
+      let (s2, r2) := step s1 s!"add {i} {newId} {e.name}"
+      (s2, firstPart r2)
+    | _, none => (st, "err:AttributeError")
+
+def stepAll (st : St) (line : String) : St × String :=
+  match (line.trimAscii.toString.splitOn " ").filter (· ≠ "") with
+  | ["dotx", i, k, nid, arg] =>
+    match i.toNat?, nid.toNat? with
+    | some i, some nid => stepDot st i (unhex k) nid arg
+    | _, _ => (st, "bad-op")
+  | ["getx", i, k] =>
+    -- e.xml_x read access: the first child of that name in insertion order, else None / AttributeError
+    match i.toNat? with
+    | some i =>
+      match st.insts[i]? with
+      | none => (st, "bad-inst")
+      | some inst =>
+        let key := unhex k
+        let childName := Element.shortcutChildName key
+        let found := (unorderedOf inst).find? fun c => match st.insts[c]? with
+          | some ci => (ci.info.map fun e => strOf e.name) == some childName
+          | none => false
+        let declMissing := match inst.info with
+          | some e => e.kind == 1 && (e.akey.map tableDeclMissing).getD false
+          | none => false
+        if declMissing then (st, "err:AttributeError") else
+        match found with
+        | some c => (st, s!"child:{c}")
+        | none =>
+          let possible := inst.hasTree && (dedup inst.p.leaves).any fun n => strOf n == childName
+          (st, if possible then "child:none" else "err:AttributeError")
+    | none => (st, "bad-op")
+  | _ => step st line
+
 partial def loop (h : IO.FS.Stream) (out : IO.FS.Stream) (st : St) : IO Unit := do
   let line ← h.getLine
   if line.isEmpty then return ()
-  let (st', o) := step st line
+  let (st', o) := stepAll st line
   out.putStrLn o
   if line.trimAscii.toString == "flush" then out.flush
   loop h out st'
